@@ -371,6 +371,14 @@ def templates(tier="quick"):
         T += _mk("restat_deps_%s_list_changes" % kind, [rv("v0", ["h1"]), rv("v1", ["h1", "h2"])], tags=["restat", "deps"], depth=d, touch=True,
                  js=(1, 2), max_fault_stmts=1, files={"h2": "h2-v0\n"}, edits_during=False)
 
+        # ... or a list of the same length whose first half stays: the second dependency is exchanged for one that another
+        # statement has already made known to the deps log (h3 has an id; comparing the lists has to look at every entry)
+        def rv2(name, hidden, kind=kind):
+            return Variant(name, [Stmt("obj", ex=["src"], hidden=hidden, deps=kind, restat=True, copy=True),
+                                  Stmt("obj2", ex=["src2"], hidden=["h3"], deps=kind), Stmt("exe", ex=["obj", "obj2"])])
+        T += _mk("restat_deps_%s_list_second_half_changes" % kind, [rv2("v0", ["h1", "h2"]), rv2("v1", ["h1", "h3"])], tags=["restat", "deps"],
+                 depth=d, touch=True, js=(1, 2), max_fault_stmts=1, edits_during=False, with_rm=False)
+
     # T35 `restat` supplied by a dyndep file that is re-made in the build: before the file is loaded the statement is
     # judged as an ordinary one (output older than its input: dirty, wanted), afterwards as a restat statement (the log
     # says its output was examined after that input: clean) -- while it is wanted, and perhaps running
@@ -394,6 +402,11 @@ def templates(tier="quick"):
                        Stmt("obj", ex=["src"], oo=["headers"]), Stmt("stamp", ex=["c"], oo=["h1", "h2"]), Stmt("obj2", ex=["src"], oo=["stamp"]),
                        Stmt("top", ex=["obj", "obj2"])])
     T += _mk("alias_before_two_producers", [v], tags=["phony", "order-only"], depth=d, js=(2, 3), max_fault_stmts=2)
+    # T37b the same alias named as an *implicit* and as an explicit input: an alias whose own inputs are all order-only and
+    # whose name is no file has inputs all the same (it is not the "phony without inputs = always out of date" idiom)
+    v = Variant("v0", [Stmt("h1", ex=["a"]), Stmt("headers", oo=["h1"], phony=True),
+                       Stmt("obj", ex=["src"], im=["headers"]), Stmt("obj2", ex=["src2", "headers"]), Stmt("top", ex=["obj", "obj2"])])
+    T += _mk("alias_of_order_only_inputs_as_input", [v], tags=["phony", "order-only"], depth=d, js=(1, 2), max_fault_stmts=1)
 
     # T38 a plain-depfile statement whose tool spells its own target the way compilers do with -o ./obj/x.o
     for spn, sp in (("dot", "./obj/x.o"), ("dotdot", "obj/../obj/x.o")):
